@@ -13,7 +13,9 @@
                                       message, space known or the action is a "create"), then the
                                       replay guard in front of each handler:
         KeyBundle        (author, bundle) already in the key registry
-                         ([IdentityManager::has_key_bundle], added by the fix)
+                         ([IdentityManager::has_key_bundle], added by the fix; checked before the
+                         bundle is verified, so a registered bundle that expired meanwhile is
+                         skipped silently)
         Auth             [groups_y.inner.operations.contains_key(id)]          (group.rs)
         SpaceMembership  [y.encryption_y.orderer.has_seen(id)] of that space   (space.rs)
         Application      the same orderer guard (added by the fix)
